@@ -222,6 +222,20 @@ def run(ctx):
             hs = ["-"] + histories(len(zckref.parse(good).chunks), thorough)
             hjobs.append(("twin:%s@%d" % (cfg.name(), at), good, content, None, [(mut, 0, ci, limit)], hs, (1, 7, 32768)))
     ctx.bounds["digest_twins"] = "%d configurations x 3 positions: a chunk replaced by a same-length twin whose digest also begins with 0x00" % len(tw)
+    # scale-dependent shape: zstd chunks whose uncompressed size exceeds one and two 32 KiB blocks (incompressible content, so a
+    # flipped literal byte still decompresses to the declared size); read sizes below, at and far above the block size, with and
+    # without the caller clearing the error - nothing of the damaged chunk may ever come out, its tail included
+    bigz, bpcs = universe.big_file(Cfg(2, b"", 0, 3, 1), ctx.seed, sizes=(100, 40000, 70000, 50))
+    pbz = zckref.parse(bigz)
+    bcontent = b"".join(bpcs)
+    for (lo, hi, limit, chunk) in regions(pbz):
+        if hi - lo < 30000:
+            continue
+        after = limit + pbz.chunks[chunk].ulen
+        for q in (lo + 100, lo + (hi - lo) // 2, hi - 50):
+            for recover in (0, 1):
+                jobs.append(("ref:big:zstd", bigz, bcontent, "4096;32768;40000;1048576", q, q + 1, limit, chunk, "bits", recover, after))
+    ctx.bounds["big_chunks"] = "zstd file with chunks of 40000 and 70000 incompressible bytes: a flipped byte near the start, middle and end of each, read sizes 4096 / 32768 / 40000 / 1 MiB, plain and recover mode"
     for r in core.pmap(work_hist, hjobs):
         ctx.states += r["n"]; ctx.evaluations += r["n"]; ctx.transitions += r["n"] * 3
         ctx.outcomes |= {str(o) for o in r["outcomes"]}
